@@ -80,6 +80,7 @@ func NewWriterLevel(w io.Writer, level, wc int) (*Writer, error) {
 	go func() {
 		defer bg.wg.Done()
 		for qw := range bg.queue {
+			verifAtC("e.recvq", qw, 0)
 			if !writeOK(bg, <-qw.flush) {
 				break
 			}
@@ -100,8 +101,11 @@ func writeOK(bg *Writer, c *compressor) bool {
 		return true
 	}
 
+	verifAtC("e.write", c, int64(c.buf.Len()))
 	_, err := io.Copy(bg.w, &c.buf)
+	verifAtC("e.copied", c, 0)
 	bg.qwg.Done()
+	verifAtC("e.done", c, 0)
 	if err != nil {
 		bg.setErr(err)
 		return false
@@ -130,6 +134,8 @@ type compressor struct {
 
 func (c *compressor) writeBlock() {
 	defer func() { c.flush <- c }()
+	defer verifAtC("comp.done", c, 0)
+	verifAtC("comp.start", c, int64(c.next))
 
 	if c.gz == nil {
 		c.gz, c.err = gzip.NewWriterLevel(&c.buf, c.level)
@@ -209,10 +215,12 @@ func (bg *Writer) Write(b []byte) (int, error) {
 		}
 
 		if c.next == len(c.block) || _n == 0 {
+			verifAtC("w.queue", c, int64(c.next))
 			bg.queue <- c
 			bg.qwg.Add(1)
 			go c.writeBlock()
 			c = <-bg.waiting
+			verifAtC("w.take", c, 0)
 		}
 	}
 	bg.active = c
@@ -235,6 +243,7 @@ func (bg *Writer) Flush() error {
 
 	var c *compressor
 	c, bg.active = bg.active, <-bg.waiting
+	verifAtC("f.queue", c, int64(c.next))
 	bg.queue <- c
 	bg.qwg.Add(1)
 	go c.writeBlock()
@@ -272,13 +281,16 @@ func (bg *Writer) setErr(err error) {
 func (bg *Writer) Close() error {
 	if !bg.closed {
 		c := bg.active
+		verifAtC("c.queue", c, int64(c.next))
 		bg.queue <- c
 		bg.qwg.Add(1)
 		<-bg.waiting
+		verifAtC("c.take", c, 0)
 		c.writeBlock()
 		bg.closed = true
 		close(bg.queue)
 		bg.wg.Wait()
+		verifAt("c.joined", 0)
 		if bg.err == nil {
 			_, bg.err = bg.w.Write([]byte(magicBlock))
 		}
